@@ -447,6 +447,22 @@ var blockMuts = []blockMut{
 		b.Transactions = txs
 		return true
 	}},
+	{"tx-all-removed-root-kept", func(g *G, b *types.Block, _ *signer) bool {
+		// the whole transaction list stripped, header (with its transactions root) and signature untouched
+		if len(b.Transactions) == 0 {
+			return false
+		}
+		b.Transactions = nil
+		return true
+	}},
+	{"tx-all-removed", func(g *G, b *types.Block, _ *signer) bool {
+		if len(b.Transactions) == 0 {
+			return false
+		}
+		b.Transactions = nil
+		b.RebuildMerkleRoot()
+		return true
+	}},
 	{"tx-swapped", func(g *G, b *types.Block, _ *signer) bool {
 		if len(b.Transactions) < 2 {
 			return false
@@ -487,7 +503,7 @@ func TestC44(t *testing.T) {
 	defer r.Finish()
 	r.Rule("10 VBFT message kinds with boundary-biased random fields (half of endorse/commit and all fetch kinds through the real construct*Msg builders; proposals built and signed with the calls of constructBlock): round trip + re-encoding; " +
 		"ConsensusPayload envelope signed like broadcastToAll (production shape, random fields, all header fields non-zero): round trip (both codecs), the real send path msg_pack.NewConsensus -> WriteMessage -> ReadMessage (field-wise comparison + Verify at the receiver; also NewConsensusDataReq / NewInv for consensus hashes), 12 single-field mutants and foreign keys, each mutant applied to a freshly decoded payload and also to a payload value that has already verified once (same object, struct copy, NewConsensus copy); " +
-		"block proposals: 18 single-field mutants × {block, empty block} sent through the wire form, foreign keys, transplanted signatures; distinct = (kind, builder, shape of optional parts) / (mutant name, part, outcome)")
+		"block proposals: 20 single-field mutants (incl. the whole transaction list stripped with the root kept / rebuilt) × {block, empty block} sent through the wire form, foreign keys, transplanted signatures; distinct = (kind, builder, shape of optional parts) / (mutant name, part, outcome)")
 	r.Assume("values the encodings cannot represent by construction are excluded: Block.Info differing from the header's consensus payload, transaction roots not matching the transactions, duplicate transactions, non-UTF-8 peer ids")
 	r.Assume("ConsensusPayload.PeerId and the cached hash are local fields that are never encoded; they are not content")
 	r.Assume("the content bound by a block signature is the unsigned header plus the transactions; Bookkeepers/SigData lists are outside it")
@@ -885,6 +901,7 @@ func TestC44(t *testing.T) {
 			}
 			if err != nil {
 				r.Count("proposal_mutant_refused_at_decode", 1)
+				r.Count("proposal_mutant_refused_or_rejected:"+name, 1)
 				r.Distinct("prop-mutant", name, part, "decode-refused")
 				return
 			}
@@ -892,6 +909,7 @@ func TestC44(t *testing.T) {
 			if q2.Verify(sg.acct.PublicKey) != nil {
 				r.Count("proposal_mutant_rejected", 1)
 				r.Count("proposal_mutant_rejected:"+name, 1)
+				r.Count("proposal_mutant_refused_or_rejected:"+name, 1)
 				r.Distinct("prop-mutant", name, part, "verify-refused")
 				return
 			}
@@ -989,6 +1007,8 @@ func TestC44(t *testing.T) {
 	r.Require("proposal_mutant_rejected", nprop*8)
 	r.Require("proposal_mutant_refused_at_decode", nprop/2)
 	r.Require("vote_binding_ok", nprop)
+	r.Require("proposal_mutant_refused_or_rejected:tx-all-removed-root-kept", nprop/2)
+	r.Require("proposal_mutant_refused_or_rejected:tx-all-removed", nprop/2)
 	for _, n := range []string{"chain-id", "prev-hash", "cross-state-root", "block-root", "timestamp", "height", "consensus-data", "next-bookkeeper", "consensus-payload-proposer", "tx-appended", "sig-by-other-key", "sig-bit"} {
 		r.Require("proposal_mutant_rejected:"+n, nprop/3)
 	}
